@@ -119,6 +119,7 @@ struct Node {
 }
 
 fn replay(body: &[u8], filters: &[FilterSpec], headers: &[(String, String)], history: &[usize]) -> (FilterBodyAction, Vec<u8>) {
+    crate::common::heartbeat(|| serde_json::json!({"chunks": history}));
     let mut f = build_filter(filters, headers);
     let mut out = Vec::new();
     let mut off = 0;
